@@ -462,6 +462,11 @@ def r4_r5_derived(chk):
             if isinstance(s, ast.Assign) and s.value is ctor[0]:
                 res = norm(s.targets[0])
         chk.require(res is not None, f"Structure.{name}: result variable not found")
+        rets = [r for r in walk_no_nested(f.node) if isinstance(r, ast.Return) and r.value is not None]
+        alien = [r for r in rets if norm(r.value) != res]
+        chk.decide(bool(rets) and not alien, "C06.R4", f"{f.key}:returns-the-new-object", f.where(alien[0] if alien else None), f"every return hands out `{res}`, the object built here",
+                   f"Structure.{name} can return `{short(alien[0].value, 40) if alien else None}` instead of the object it builds: the caller gets one of its inputs back "
+                   "(a shortcut for a single argument) and every later edit of the \"product\" edits that source")
         apps = [c for c in walk_no_nested(f.node) if isinstance(c, ast.Call) and norm(c.func) in (f"{res}.append_bond", f"{res}.append_bonds", f"{res}.extend_bonds")]
         if not apps:
             # the bond table filled from one comprehension (`res._bonds = [b.evolve(...) for b in ...]`): each element stands for an appended bond
